@@ -38,6 +38,10 @@ type Graph struct {
 	// Tables: package-level map[K]func variables -> functions stored in them by init, with constant keys.
 	Tables map[*ssa.Global][]TableEntry
 	fieldTypes map[*types.Var]*fieldTypeInfo
+	// tblBind: while a callee is expanded for one call site, its parameters that receive a dispatch table (a load of a
+	// package-level table) are bound to that table, so that `param[key](…)` resolves to the members of that table only.
+	tblBind map[*ssa.Parameter]*ssa.Global
+	wtpMemo map[[2]interface{}]int
 }
 
 // TableEntry is one `key: fn` element of a package-level dispatch table.
@@ -385,6 +389,20 @@ func (g *Graph) resolveFuncValueCtx(v ssa.Value, feasible map[[2]*ssa.BasicBlock
 			}
 			rec(x.Tuple, feas, sp, depth+1)
 		case *ssa.Lookup:
+			mv := x.X
+			if ct, ok := mv.(*ssa.ChangeType); ok {
+				mv = ct.X
+			}
+			if p, ok := mv.(*ssa.Parameter); ok {
+				if gl := g.tblBind[p]; gl != nil {
+					for _, e := range g.Tables[gl] {
+						if e.Fn != nil {
+							fns = append(fns, e.Fn)
+						}
+					}
+					return
+				}
+			}
 			gls, ok := TableGlobals(x.X, feas)
 			if ok {
 				all := true
@@ -654,11 +672,99 @@ func (g *Graph) edgesOf(f *ssa.Function) {
 						}
 					}
 				}
+				// dispatch-table specialisation: the callee receives a package-level table as an argument (or receiver)
+				if callee := cc.StaticCallee(); callee != nil && g.repoSet[callee] && len(callee.Blocks) > 0 {
+					if bind := g.TableArgs(callee, cc); len(bind) > 0 {
+						for _, e := range g.tableSpecialised(callee, bind) {
+							g.addEdge(f, e.Callee, x, "inlined-table")
+						}
+						continue
+					}
+				}
 				for _, e := range g.CalleesAt(f, x, nil) {
 					g.addEdge(f, e.Callee, x, e.Kind)
 				}
 			}
 		}
+	}
+}
+
+// TableArgs maps the parameters of callee that receive a load of a package-level dispatch table at this call.
+func (g *Graph) TableArgs(callee *ssa.Function, cc *ssa.CallCommon) map[*ssa.Parameter]*ssa.Global {
+	var bind map[*ssa.Parameter]*ssa.Global
+	for i, a := range cc.Args {
+		if ct, ok := a.(*ssa.ChangeType); ok {
+			a = ct.X
+		}
+		gl := globalOfLoad(a)
+		if gl == nil || i >= len(callee.Params) {
+			continue
+		}
+		if _, isTable := g.Tables[gl]; !isTable {
+			continue
+		}
+		if bind == nil {
+			bind = map[*ssa.Parameter]*ssa.Global{}
+		}
+		bind[callee.Params[i]] = gl
+	}
+	return bind
+}
+
+// tableSpecialised lists the call edges of callee when the given parameters denote the given tables.
+func (g *Graph) tableSpecialised(callee *ssa.Function, bind map[*ssa.Parameter]*ssa.Global) []Edge {
+	if g.tblBind == nil {
+		g.tblBind = map[*ssa.Parameter]*ssa.Global{}
+	}
+	for p, gl := range bind {
+		g.tblBind[p] = gl
+	}
+	defer func() {
+		for p := range bind {
+			delete(g.tblBind, p)
+		}
+	}()
+	var out []Edge
+	for _, b := range callee.Blocks {
+		for _, ins := range b.Instrs {
+			switch x := ins.(type) {
+			case *ssa.MakeClosure:
+				if cf, ok := x.Fn.(*ssa.Function); ok {
+					out = append(out, Edge{Caller: callee, Callee: cf, Site: x, Kind: "closure"})
+				}
+			case ssa.CallInstruction:
+				cc := x.Common()
+				if cc.StaticCallee() == nil && !cc.IsInvoke() {
+					if _, isB := cc.Value.(*ssa.Builtin); !isB {
+						fns, _ := g.resolveFuncValueCtx(cc.Value, nil, nil, false)
+						for _, f := range fns {
+							g.ensureRepo(f)
+							if g.repoSet[f] {
+								out = append(out, Edge{Caller: callee, Callee: f, Site: x, Kind: "funcvalue"})
+							}
+						}
+						continue
+					}
+				}
+				out = append(out, g.CalleesAt(callee, x, nil)...)
+			}
+		}
+	}
+	return out
+}
+
+// TableOfParam: the table a parameter is currently bound to (only during tableSpecialised); exported for rules that
+// evaluate a dispatcher under a given table.
+func (g *Graph) WithTableBinding(bind map[*ssa.Parameter]*ssa.Global, f func()) {
+	if g.tblBind == nil {
+		g.tblBind = map[*ssa.Parameter]*ssa.Global{}
+	}
+	for p, gl := range bind {
+		g.tblBind[p] = gl
+	}
+	f()
+	for p := range bind {
+		delete(g.tblBind, p)
 	}
 }
 
